@@ -564,6 +564,9 @@ def replay(path):
     rp = json.load(open(path))
     prop = rp["property"]
     mod = importlib.import_module("gen." + prop.lower())
+    if hasattr(mod, "replay"):
+        # schedule-dependent properties replay a case several times / with their own harness
+        return mod.replay(rp)
     dtarget = getattr(mod.SPEC, "driver_target", "driver")
     if hasattr(mod, "build_harness"):
         okh, errh, hbin = mod.build_harness()
@@ -587,7 +590,7 @@ def replay(path):
             print("spec ", chk[k][:300])
     # properties whose observations carry timestamps / scheduling noise are judged by the Spec
     # predicate alone (SPEC.compare_model = False)
-    differ = impl != model if getattr(mod.SPEC, "compare_model", True) else False
+    differ = impl != model if (getattr(mod.SPEC, "compare_model", True) and getattr(mod.SPEC, "replay_compare_model", True)) else False
     fails = any(c.startswith("fails") for c in chk)
     print("REPLAY: implementation and model %s; the property predicate %s on the implementation's observations" % (
         "still disagree" if differ else "agree on this input now", "FAILS" if fails else "holds (or is not defined for these ops)"))
